@@ -109,7 +109,10 @@ def _each_part(kind, arg, n0='old(trace_len())', first=0):
 
 
 contract('Batch.initialize', props=['C17', 'C20'], args={'env': 'ref:Environment'}, modular=True, invariants='prove_only',
-         requires={'part_list_exists': PARTS_WF},
+         requires={'part_list_exists': PARTS_WF,
+                   'routing_lists_exist':
+                       'self._routing_history is not None and alive(self._routing_history) and self._group_pathing is not None '
+                       'and alive(self._group_pathing) and self._routing_history is not self._group_pathing'},
          raises={'AssertionError': ('env is not None and self._env is not None', {}), 'TypeError': ('env is None', {})},
          ensures={'batch_itself_initialised': 'self._env is env and self._value == self._initial_value and '
                                               'len(self._value_history) == 0',
@@ -168,6 +171,11 @@ def _moved(at):
     }
 
 
+# KNOWN GAP (engine): `loop1.frame` of this loop is not provable.  The loop's `modifies` is resolved at loop entry and the
+# loop cut does not havoc `alive`, so the part list of a Batch allocated by an EARLIER iteration (in-progress batch was
+# None at entry, >= 2 leaves moved) can neither be named nor counts as "allocated since".  For the same reason the
+# loop-level clauses make no fresh()/alive() claim about that batch (the state at the loop head over-approximates it by
+# an arbitrary existing Batch distinct from the input); newness is proved in _add_part_to_output (fresh(...)).
 ACTIVE = 'old(operational(self) and self._part is not None and self._output is None)'
 EMPTY_IN = 'old(typed(self._part, "Batch") and len(bparts(self._part)) == 0)'
 contract('PartBatcher._try_move_part_to_output', props=['C17'], args={},
